@@ -150,6 +150,8 @@ def validate(rep, wd, groups, owner, prefix, maxbatch=700):
 
 
 def roundtrip_trace(tid, m, bc, codec, hexb, desc, secret=''):
+    if tid % 9 == 4:
+        drv.hazard(drv.rng(tid, 'hazard', desc))          # unrelated activity in this process; must not matter
     e1, b = isoc.do_dumps(m, codec, bc, hexb)
     evs = [e1]
     d = None
